@@ -247,7 +247,9 @@ func (rm *RequestManager) releaseRequestTask(p peer.ID, task *peertask.Task, err
 	if !ok {
 		return
 	}
-	if _, ok := err.(hooks.ErrPaused); ok {
+	// a request that was told to end while this task was running (its context has been cancelled) is
+	// retired even if the task stopped for a pause: parked, it would never close its channels
+	if _, ok := err.(hooks.ErrPaused); ok && ipr.ctx.Err() == nil {
 		ipr.state = graphsync.Paused
 		return
 	}
